@@ -320,7 +320,8 @@ def run_case(spec, work):
                     # the file altogether
                     keep = [i for i, l in enumerate(labels)
                             if l is not None]
-                    p = work / f'ref_{pi}.h5ad'
+                    p = work / 'ref_shared.h5ad'
+                    ctx.bump('same_path_rewritten')
                     obs_extra = {
                         lv: [model.ancestor(model.leaf_level, labels[i], lv)
                              for i in keep] for lv in model.hierarchy}
@@ -338,12 +339,19 @@ def run_case(spec, work):
                         lf: [keep.index(i) for i in keep
                              if labels[i] == lf] for lf in leaves_with_cells}
                 elif entry == 'rows_tree':
-                    p = work / f'ref_{pi}.h5ad'
-                    mapworld.write_h5ad(p, X, cells, genes, encoding=enc)
+                    # always the same path, rewritten with the cells in
+                    # another row order: a result must not depend on what
+                    # an earlier run saw at that path
+                    p = work / 'ref_shared.h5ad'
+                    ro = rng.permutation(n_cells)
+                    mapworld.write_h5ad(p, X[ro], [cells[i] for i in ro],
+                                        genes, encoding=enc)
+                    ctx.bump('same_path_rewritten')
                     m2 = gen.TaxModel(model.hierarchy, model.nodes,
                                       model.parent)
-                    m2.cells = {lf: [i for i, l in enumerate(labels)
-                                     if l == lf] for lf in model.leaves}
+                    m2.cells = {lf: [j for j, i in enumerate(ro)
+                                     if labels[i] == lf]
+                                for lf in model.leaves}
                     tree = TaxonomyTree(data=m2.to_dict(with_cells=True))
                     pfa.precompute_summary_stats_from_h5ad_and_tree(
                         data_path=p, taxonomy_tree=tree, output_path=out,
@@ -361,7 +369,7 @@ def run_case(spec, work):
                         if not idx:
                             continue
                         idx = [idx[j] for j in rng.permutation(len(idx))]
-                        p = work / f'ref_{pi}_{fi}.h5ad'
+                        p = work / f'ref_list_{fi}.h5ad'
                         mapworld.write_h5ad(
                             p, X[idx], [cells[i] for i in idx], genes,
                             encoding=str(rng.choice(['dense', 'csr',
